@@ -154,6 +154,17 @@ func selfPath(race bool) string {
 	return filepath.Join(dir, "vrun")
 }
 
+// portRangeStart returns the first port of the 4000-port range of this
+// invocation; VERIF_PORT_OFFSET (0..9) lets several invocations run side by side.
+func portRangeStart() int {
+	off := 0
+	fmt.Sscanf(os.Getenv("VERIF_PORT_OFFSET"), "%d", &off)
+	if off < 0 || off > 9 {
+		off = 0
+	}
+	return 20000 + off*4000
+}
+
 var portBaseMu sync.Mutex
 var nextPortSlot = 0
 
@@ -193,7 +204,7 @@ func runBatches(ctx *runCtx, batches []batch, parallel int, onDeath func(b batch
 			cmd.Stdout = logf
 			cmd.Stderr = logf
 			cmd.Env = append(os.Environ(),
-				fmt.Sprintf("VERIF_PORT_BASE=%d", 20000+(slot%200)*200),
+				fmt.Sprintf("VERIF_PORT_BASE=%d", portRangeStart()+(slot%20)*200),
 				"GORACE=halt_on_error=0 log_path="+filepath.Join(ctx.outDir, tag+".race"),
 			)
 			cmd.SysProcAttr = &syscall.SysProcAttr{Setpgid: true}
